@@ -896,3 +896,47 @@ func init() {
 		c.Expect(1, n, "reflect.ValueOf calls in FeedOf.Send")
 	})
 }
+
+func init() {
+	extendProp("C42", "A re-included transaction is re-filed under its new block: in BlobPool.reorg the transactions handed to limbo.update are not taken from TxDifference(included, discarded) — that difference drops exactly the transactions that were included in both chains, whose limbo entry still names the old height.", nil, func(c *Ctx) {
+		c.Rule("SHAPE/C42.limboreincluded")
+		bp := "core/txpool/blobpool"
+		f := c.Fn(bp, "(*BlobPool).reorg")
+		if f == nil {
+			return
+		}
+		c.Funcs[f] = true
+		n := 0
+		for _, s := range c.Calls(f, "(*"+bp+".limbo).update") {
+			call := s.Instr.(*ssa.Call)
+			n++
+			// update(tx.Hash(), …): tx := slice[i]
+			var src ssa.Value
+			v := callArgs(&call.Call)[0]
+			for i := 0; i < 8 && v != nil; i++ {
+				switch x := v.(type) {
+				case *ssa.Call:
+					if cal := x.Call.StaticCallee(); cal != nil && cal.Name() == "Hash" && len(x.Call.Args) > 0 {
+						v = x.Call.Args[0]
+					} else {
+						src, v = x, nil
+					}
+				case *ssa.UnOp:
+					v = x.X
+				case *ssa.IndexAddr:
+					v = x.X
+				default:
+					src, v = x, nil
+				}
+			}
+			filtered := false
+			if sc, ok := src.(*ssa.Call); ok {
+				if cal := sc.Call.StaticCallee(); cal != nil && cal.Name() == "TxDifference" {
+					filtered = true
+				}
+			}
+			c.Check(!filtered, "covers-both-chains", s.Pos(), "the refreshed set is not `included minus discarded`", "limbo.update runs only for transactions of the new chain that were not in the old one: a transaction re-included at another height keeps its old block number and its blobs are dropped when that height finalizes")
+		}
+		c.Expect(1, n, "limbo.update calls in reorg")
+	})
+}
